@@ -32,13 +32,16 @@ type facts struct {
 	inRange  map[string]string
 	okOf     map[string]string
 	maybeNil map[string]bool
-	ub       map[string]int64 // path < ub
-	nonneg   map[string]bool  // path >= 0
+	ub       map[string]int64  // path < ub
+	nonneg   map[string]bool   // path >= 0
+	errOf    map[string]string // err variable -> pointer returned alongside it by the same call
+	errVal   map[string]bool   // may-fact: pointer whose accompanying error is not known nil here
 }
 
 func newFacts() *facts {
 	return &facts{map[string]int{}, map[string]bool{}, map[string]string{}, map[string]string{},
-		map[string]string{}, map[string]string{}, map[string]bool{}, map[string]int64{}, map[string]bool{}}
+		map[string]string{}, map[string]string{}, map[string]bool{}, map[string]int64{}, map[string]bool{},
+		map[string]string{}, map[string]bool{}}
 }
 
 func (f *facts) clone() *facts {
@@ -69,6 +72,12 @@ func (f *facts) clone() *facts {
 	}
 	for k := range f.nonneg {
 		g.nonneg[k] = true
+	}
+	for k, v := range f.errOf {
+		g.errOf[k] = v
+	}
+	for k := range f.errVal {
+		g.errVal[k] = true
 	}
 	return g
 }
@@ -133,6 +142,17 @@ func meet(f, g *facts) *facts {
 		if g.nonneg[k] {
 			r.nonneg[k] = true
 		}
+	}
+	for k, v := range f.errOf {
+		if g.errOf[k] == v {
+			r.errOf[k] = v
+		}
+	}
+	for k := range f.errVal {
+		r.errVal[k] = true
+	}
+	for k := range g.errVal {
+		r.errVal[k] = true
 	}
 	return r
 }
@@ -228,6 +248,16 @@ func (f *facts) kill(p string) {
 			delete(f.nonneg, k)
 		}
 	}
+	for k, v := range f.errOf {
+		if hasPrefixPath(k, p) || hasPrefixPath(v, p) {
+			delete(f.errOf, k)
+		}
+	}
+	for k := range f.errVal {
+		if hasPrefixPath(k, p) {
+			delete(f.errVal, k)
+		}
+	}
 }
 
 // killField removes facts whose path goes through a field with this name
@@ -271,6 +301,8 @@ type pathEnv struct {
 	// operands are not assigned afterwards (`ok := len(x) > 1`): testing the
 	// local is testing the condition
 	boolDef map[types.Object]ast.Expr
+	// rangeKeys: objects that are the key variable of some range statement
+	rangeKeys map[types.Object]bool
 }
 
 // pathOf normalises a side-effect-free access path: identifiers, field
@@ -474,12 +506,24 @@ func (pe pathEnv) refineCmp(x ast.Expr, op token.Token, y ast.Expr, f *facts) {
 	if id, ok := ast.Unparen(y).(*ast.Ident); ok && id.Name == "nil" {
 		if p, ok := pe.pathOf(x); ok && op == token.NEQ {
 			delete(f.maybeNil, p)
+			delete(f.errVal, p)
+		}
+		if p, ok := pe.pathOf(x); ok && op == token.EQL {
+			if v, has := f.errOf[p]; has {
+				delete(f.errVal, v) // the error is nil here: its companion is valid
+			}
 		}
 		return
 	}
 	if id, ok := ast.Unparen(x).(*ast.Ident); ok && id.Name == "nil" {
 		if p, ok := pe.pathOf(y); ok && op == token.NEQ {
 			delete(f.maybeNil, p)
+			delete(f.errVal, p)
+		}
+		if p, ok := pe.pathOf(y); ok && op == token.EQL {
+			if v, has := f.errOf[p]; has {
+				delete(f.errVal, v)
+			}
 		}
 		return
 	}
